@@ -153,13 +153,18 @@ func verif_ControlManager_Del(cm *ControlManager, runID string, ctl *Control, q 
 	}
 }
 
+// (The session found may only be used after the found check: callers get a
+// pointer they must not dereference blindly - C16: an unknown run id comes
+// from any unauthenticated peer.)
+//
+//verif:nullable-result (*~/server.ControlManager).GetByID
 //verif:contract (*~/server.ControlManager).GetByID
-//verif:props C12 C04
+//verif:props C12 C04 C16
 func verif_ControlManager_GetByID(cm *ControlManager, runID string) {
 	c0, had := cm.ctlsByRunID[runID]
 	ctl, ok := cm.GetByID(runID)
 	verif.Ensures(ok == had && ctl == c0, "lookup_is_table")
-	verif.Ensures(!ok || ctl != nil || c0 == nil, "found_means_entry")
+	verif.Ensures(!ok || ctl != nil, "found_session_is_not_nil")
 }
 
 // ---------------------------------------------------------------- C04 / C12 / C15: login
@@ -551,7 +556,7 @@ func verif_heartbeat_watchdog() {
 // the type it asserts, and nothing else.
 //
 //verif:contract (*~/server.Control).registerMsgHandlers
-//verif:props C16 C17
+//verif:props C16 C17 C12
 func verif_registerMsgHandlers(ctl *Control) {
 	verif.Requires(msg.VerifDispatcherOK(ctl.msgDispatcher), "dispatcher_built")
 	verif.ResetEvents()
@@ -570,6 +575,13 @@ func verif_registerMsgHandlers(ctl *Control) {
 	verif.Ensures(t3 && verif.HandlerName(verif.NthArg[func(msg.Message)](ev, 3, 2)) == "handleNatHoleClient", "nat_hole_client_to_its_handler")
 	verif.Ensures(t4 && verif.HandlerName(verif.NthArg[func(msg.Message)](ev, 4, 2)) == "handleNatHoleReport", "nat_hole_report_to_its_handler")
 	verif.Ensures(t5 && verif.HandlerName(verif.NthArg[func(msg.Message)](ev, 5, 2)) == "handleCloseProxy", "close_proxy_to_its_handler")
+	// C12 "sessions own their proxies": registrations, closes and heartbeats of
+	// one session are handled one after the other in the read loop, in the order
+	// the client sent them (a NewProxy overtaken by the CloseProxy that follows it
+	// would leave a proxy the client believes closed); only the NAT-hole
+	// handlers, which wait for the other party, run on their own
+	verif.Ensures(verif.HandlerWrapper(verif.NthArg[func(msg.Message)](ev, 0, 2)) == "" && verif.HandlerWrapper(verif.NthArg[func(msg.Message)](ev, 1, 2)) == "" && verif.HandlerWrapper(verif.NthArg[func(msg.Message)](ev, 5, 2)) == "", "proxy_lifecycle_messages_handled_in_order")
+	verif.Ensures(verif.HandlerWrapper(verif.NthArg[func(msg.Message)](ev, 2, 2)) == "AsyncHandler$1" && verif.HandlerWrapper(verif.NthArg[func(msg.Message)](ev, 3, 2)) == "AsyncHandler$1", "waiting_handlers_run_outside_the_read_loop")
 }
 
 // The handlers, given the type they are registered for, do not panic whatever
